@@ -757,6 +757,8 @@ class NodeDerefSlice:
                 end += len(s)
             if start < 0:
                 start = 0
+            if end < 0:
+                end = 0
             if end > len(s):
                 end = len(s)
             return ValueString(s[start:end])
@@ -771,6 +773,8 @@ class NodeDerefSlice:
                 end += len(lst)
             if start < 0:
                 start = 0
+            if end < 0:
+                end = 0
             if end > len(lst):
                 end = len(lst)
             result = ValueList()
